@@ -56,6 +56,12 @@ var c05Dirs = []string{"", "", "sub/", "sub/deep/", "other/"}
 
 func genImpGraph(t *rapid.T, maxFiles int) impCase {
 	n := maxFiles + 1 - rapid.IntRange(1, maxFiles).Draw(t, "nfiles_inv") // favour larger graphs, shrink towards them too
+	// wide fan-out: one file importing 6-9 others (a bounded worker pool or a per-file limit in the
+	// retrieval would only show with more imports than workers)
+	wide := maxFiles >= 6 && rapid.IntRange(0, 5).Draw(t, "wide") == 0
+	if wide {
+		n = rapid.IntRange(7, 10).Draw(t, "nwide")
+	}
 	g := impCase{}
 	for i := 0; i < n; i++ {
 		d := pick(t, c05Dirs, "dir")
@@ -104,7 +110,20 @@ func genImpGraph(t *rapid.T, maxFiles int) impCase {
 		}
 		g.Spell[i] = append(g.Spell[i], s)
 	}
-	if shape == 0 && n >= 5 {
+	if wide {
+		for j := 1; j < n; j++ {
+			addEdge(0, j)
+		}
+		for i := 1; i < n; i++ {
+			if rapid.IntRange(0, 3).Draw(t, "wideextra") == 0 {
+				addEdge(i, rapid.IntRange(0, n-1).Draw(t, "wideto"))
+			}
+		}
+		g.Depth = 0
+		if rapid.IntRange(0, 3).Draw(t, "widedepth") == 0 {
+			g.Depth = rapid.IntRange(1, 3).Draw(t, "widedepthv")
+		}
+	} else if shape == 0 && n >= 5 {
 		// two-route template: root->1->2->3 (deep route to 3), root->4->3 (short route), 3->(last) child;
 		// with a depth limit between the two route lengths the claim order matters.
 		addEdge(0, 1)
@@ -288,6 +307,12 @@ func (g *impCase) classes() []string {
 	}
 	if g.Remote {
 		cl = append(cl, "remote_style_versioned_paths")
+	}
+	for _, es := range g.Edges {
+		if len(es) >= 6 {
+			cl = append(cl, "fan_out_ge6")
+			break
+		}
 	}
 	indeg := make([]int, n)
 	self := false
